@@ -112,6 +112,11 @@ fn main() {
             println!("{}", hostile::run_rootops(&cfgs, &PathBuf::from(get("out", "work/rootops"))));
             0
         }
+        "ahostile" => {
+            let cfgs: Vec<String> = get("cfgs", "mem").split(';').map(|s| s.to_string()).collect();
+            println!("{}", hostile::run_async_hostile(&cfgs, &PathBuf::from(get("out", "work/ahostile"))));
+            0
+        }
         "emb" => {
             println!("{}", embrun::run(&PathBuf::from(get("out", "work/emb"))));
             0
